@@ -5,7 +5,7 @@
     attempts" are tests (tested_not_proved in the evidence). *)
 From Coq Require Import String.
 From Coq Require Import List ZArith NArith Bool QArith.
-From Cambrian Require Import Base.F64 SourceFacts Syntax Ops OpsProofs Selection.
+From Cambrian Require Import Base.F64 SourceFacts Syntax Ops OpsProofs MutProofs CrossProofs Selection.
 Import ListNotations.
 
 (** [select_ref] is the loop [Selection.walk] models (regenerated from the source) *)
@@ -70,6 +70,21 @@ Proof.
   intros. split; [eapply sel_ok_in_range; eauto|]. intros ->. eapply sel_ok_pressure_one; eauto.
 Qed.
 Print Assumptions selection_in_range_and_greedy_at_one.
+
+(** recombination at crossover probability 1: with two or more parents a sub is assembled member by
+    member (never copied whole from one parent at that level), each member recombined from the
+    parents' members of that name; a mixed offspring of differing parents is accepted (C12's
+    example [mixing_is_accepted]) *)
+Theorem crossover_p1_recombines_memberwise :
+  forall pr ms x0 x1 rest child,
+    cross_check fone pr (SSub ms) (x0 :: x1 :: rest) child = true ->
+    exists cm, child = VSub cm /\
+      forall k cs, In (k, cs) ms ->
+        exists cvs cv,
+          all_some (map (fun v => match v with VSub m => slookup k m | _ => None end) (x0 :: x1 :: rest)) = Some cvs /\
+          slookup k cm = Some cv /\ cross_check fone pr cs cvs cv = true.
+Proof. exact cp1_sub_memberwise. Qed.
+Print Assumptions crossover_p1_recombines_memberwise.
 
 Example flip_is_accepted : mut_check fone fone (SBool true) [] [] (VBool true) (VBool false) = Some [].
 Proof. vm_compute. reflexivity. Qed.
